@@ -79,6 +79,12 @@ func foundationTable() map[string]foundation {
 			func(c *Ctx, sub *Report) { checkNetconfForward(c, sub); checkNetconfReaderKeepsReporting(c, sub) }, []string{"C06/netconf-forward"}, ""},
 		"lock-paired": {"lock-paired", "every Lock of a library mutex is released on all paths to the return", 4,
 			func(c *Ctx, sub *Report) { checkLockPaired(c, sub) }, []string{"C07/lock-paired"}, ""},
+		"multi-response": {"multi-response", "AppendResponse appends every response it is given (the i-th response belongs to the i-th command)", 2,
+			func(c *Ctx, sub *Report) { checkAggregate(c, sub) }, []string{"C13/aggregate"}, ""},
+		"eof-chain": {"eof-chain", "every transport read function hands its error on unwrapped or wrapped with %w (the reader's errors.Is(err, io.EOF) sees the end of the stream)", 6,
+			func(c *Ctx, sub *Report) { checkEOFChain(c, sub) }, []string{"C07/eof-chain"}, ""},
+		"search-window": {"search-window", "prompt / response searches look at a suffix of the buffer that starts on a line boundary found in itself", 4,
+			func(c *Ctx, sub *Report) { checkSearchDepth(c, sub) }, []string{"C01/search-depth"}, ""},
 		"ansi": {"ansi", "the escape-sequence pattern applied by the read loop cannot run across ESC or a line end and never cuts a complete sequence short", 2,
 			func(c *Ctx, sub *Report) {
 				checkANSIPatternBounded(c, sub, "x/ansi")
@@ -89,6 +95,9 @@ func foundationTable() map[string]foundation {
 
 // foundationCache keeps one sub-report per foundation and run (the rules are deterministic).
 var foundationCache = map[string]*Report{}
+
+// foundationRunning guards against re-entry.
+var foundationRunning = map[string]bool{}
 
 func importFoundation(c *Ctx, r *Report, prop, name string) {
 	f, ok := foundationTable()[name]
@@ -103,8 +112,15 @@ func importFoundation(c *Ctx, r *Report, prop, name string) {
 	}
 	sub := foundationCache[key]
 	if sub == nil {
+		if foundationRunning[key] {
+			// re-entered while it is being computed (a rule of the foundation consults data prepared by the importing
+			// property): the outer computation imports the result
+			return
+		}
+		foundationRunning[key] = true
 		sub = NewReport("x")
 		f.run(c, sub)
+		foundationRunning[key] = false
 		foundationCache[key] = sub
 	}
 	want := map[string]bool{}
